@@ -1,6 +1,7 @@
 package prof
 
 import (
+	"crypto/sha256"
 	"bytes"
 	"fmt"
 	"reflect"
@@ -144,7 +145,19 @@ func mutateLeaf(l leaf, n int, otherIDs []string) string {
 		return "flip"
 	case reflect.Slice: // []byte
 		b := append([]byte{}, v.Bytes()...)
-		switch n % 6 {
+		switch n % 7 {
+		case 6:
+			// other bytes whose SHA-256 digest starts with the same byte as the original's: slips
+			// through any commitment layout that binds only part of a field's digest
+			want := sha256.Sum256(b)
+			for i := 0; i < 4096; i++ {
+				cand := append(append([]byte{}, b...), []byte(fmt.Sprintf("~%d", i))...)
+				if got := sha256.Sum256(cand); got[0] == want[0] {
+					v.SetBytes(cand)
+					return "same-digest-prefix"
+				}
+			}
+			return ""
 		case 0:
 			if len(b) == 0 {
 				return ""
